@@ -12,11 +12,9 @@
      FailedCloseLeavesStateOpen   close() does not translate a raising server send and the
                                   connection stays accepted AND usable (messages keep arriving in
                                   order; a later close may be attempted again)
-     FailedCloseStartsPumpInHandshake   the repaired close() restarts the receiver after a failed
-                                  send whatever the state, so a close() that failed BEFORE accept
-                                  leaves the pump running during the handshake: a client disconnect
-                                  is then noticed (accept -> "closed" error, no 403/close needed).
-                                  Set the switch to FALSE if the restart gets guarded by the state.
+     FailedCloseStartsPumpInHandshake   WRONG-DESIGN switch (FALSE): a close() that failed before accept
+                                  must not start the receive pump; with TRUE (an earlier repair that
+                                  restarted the receiver unconditionally) PumpOnlyWhenAccepted fails
      AbandonedHandshakeClose      a first event other than websocket.connect is answered with
                                   close(1011)
      TypeCheckBeforeLostCheck     a wrong payload type wins over a disconnect only the pump saw
@@ -67,7 +65,7 @@ CloseEv(code, rs, ok) ==
 (* The pump moves only while the loop is drained, i.e. between two actions: what it has seen is
    a snapshot (x.seen) refreshed by Settle at the end of every action, not something that changes
    in the middle of a call. *)
-FailedCloseStartsPumpInHandshake == TRUE
+FailedCloseStartsPumpInHandshake == FALSE      \* wrong-design switch, see MC_WebSocketWrong2.cfg
 PumpRuns(x)   == x.st = "accepted" \/ (x.st = "handshake" /\ x.pump)
 PumpHoldsOneInHand(x, g) == maxq > 0 /\ PumpRuns(x) /\ g /\ Len(x.pend) <= maxq + 1
 Settle(x, g)  == [x EXCEPT !.seen = x.seen \/ PumpHoldsOneInHand(x, g)]
@@ -331,6 +329,8 @@ NothingAfterClose             == mon # "bad-after-close"
    close attempt was refused by the server: then the server has received a close (403 denial if
    it comes before accept) *)
 CloseAlwaysSent == (pc = "done" /\ ~Known(w) /\ ~last.esc) => mon = "closed"
+(* the receive pump runs from accept on, never during the handshake *)
+PumpOnlyWhenAccepted == ~w.pump /\ (w.seen => w.st # "handshake")
 StateAgrees == /\ (w.st = "accepted" => mon = "open")
                /\ (w.st = "closed" /\ w.why = "server" => mon = "closed")
                /\ (mon = "connecting" => w.st # "accepted")
